@@ -214,6 +214,24 @@ def relay_part(res, rng, nsessions):
         with up.lock:
             up.received.clear()   # the probe connection sent nothing, but be safe
         all_client = bytearray()
+        # operators poll the status page while traffic flows: the report is built concurrently with the relay
+        poll = dict(stop=False, fetched=0, stuck=0)
+
+        def poller():
+            while not poll["stop"]:
+                try:
+                    urllib.request.urlopen("http://127.0.0.1:%d/status/report" % cport, timeout=6).read()
+                    poll["fetched"] += 1
+                except socket.timeout:
+                    poll["stuck"] += 1
+                except Exception as e:  # noqa
+                    if "timed out" in str(e):
+                        poll["stuck"] += 1
+                    else:
+                        time.sleep(0.01)
+        pollers = [threading.Thread(target=poller, daemon=True) for _ in range(3)]
+        for pt in pollers:
+            pt.start()
         for sidx in range(nsessions):
             cdata, sdata = session_streams(rng)
             with up.lock:
@@ -280,6 +298,13 @@ def relay_part(res, rng, nsessions):
                 res.nontrivial.add(("session", sidx))
             if sidx % 10 == 0:
                 res.sample(dict(case, server_received=len(recvd), client_received=len(got)))
+        poll["stop"] = True
+        for pt in pollers:
+            pt.join(timeout=8)
+        res.count("status pages fetched during the relay", poll["fetched"])
+        if poll["stuck"] and proc.poll() is None:
+            res.add_violation(dict(stuck_requests=poll["stuck"], fetched=poll["fetched"]),
+                              "a status request made while traffic was being relayed never completed")
         # the status report lists only messages that were relayed
         if proc.poll() is None:
             try:
